@@ -557,6 +557,14 @@ class _C06Base(SubCheck):
                     e.check(v.pos not in rec, "(B) allele recorded for a variant the read does not overlap", info)
                     continue
                 if "partial" in cov or "full" not in cov:
+                    # C06 states nothing about a variant the read covers only in part.  C02 (checks/c02.py: ef_detect) does:
+                    # an error-free read must never vote for the allele its haplotype does not carry.
+                    if getattr(self, "partial_claim", False) and _well_defined(v, [w.norm[hw] for j, (w, hw) in enumerate(zip(variants, carried)) if j != i and hw > 0]) and _identifiable(R, variants, carried, i):
+                        r = rec.get(v.pos)
+                        e.cover("partially covered %s carried=%s" % (v.kind, "ref" if h == 0 else "alt"))
+                        if r is not None:
+                            e.cover("allele recorded for a partially covered variant")
+                        e.check(r is None or r == h, "(P) wrong allele recorded for a partially covered variant of an error-free read", info)
                     continue
                 if not _well_defined(v, [w.norm[hw] for j, (w, hw) in enumerate(zip(variants, carried)) if j != i and hw > 0]):
                     # another difference of the haplotype sits on this variant's site: the haplotype has
@@ -644,6 +652,13 @@ def _features(e, mode, ov, R, v, h, als, alns, others=()):
         if any(a["re"] == v.pos + len(v.ref) for a in als):
             f.append("at_last_aligned_base")
     ops = sorted(set(OPCH[op] for a in alns for op, l in a[3]))
+    if v is not None:
+        # does any alignment contain a base at which the carried haplotype can differ from the others (the normalised footprint)?
+        def touches(a, n):
+            return (a["rs"] < n[0] + len(n[1]) and n[0] < a["re"]) if n[1] else a["rs"] < n[0] < a["re"]
+
+        if not any(touches(a, n) for a in als for n in v.norm[1:]):
+            f.append("no_differing_base_inside_the_read")
     if v is not None and mode == "realign":
         for a in als:
             sk = a.get("deco", {}).get("skip")
